@@ -779,7 +779,7 @@ theorem accVariantS (pfx : String) (ty : TypeId) (sub : List Sel)
       (loosePayS c.s c.q c.o vt sub rest && looseMemS c.s c.q c.o vt sub rest) := by
   have hsp := spreadsA_abs hty hok
   obtain ⟨hok1, _, hvk⟩ := absOkS_parts hok
-  obtain ⟨_, _, hobj, _⟩ := absOk_parts hok1
+  obtain ⟨_, _, hobj, _⟩ := absOk2_parts hok1
   obtain ⟨i, hvi, _⟩ := hobj vt hvt
   have hvne : vt ≠ ty := by rw [hvi]; exact obj_ne_abs hty i
   have hmem : ∀ x ∈ mineOf c.q vt sub, x ∈ sub ∧ selOn c.q x = some vt := fun x hx => mem_mineOf hx
@@ -1457,7 +1457,7 @@ theorem strict_loose_absS (ty : TypeId) (sub : List Sel) (IHs : SLSelsS s q o su
     (hty : absHyp s ty) (ht : sSels s q o true sub = true) (hok : absOkS s q o ty sub = true) (b : Bool) (j : Json)
     (h : conformsAt s ty (expandSels q sub) j = true) : conformsLooseAbsS s q o b ty sub j = true := by
   obtain ⟨hok1, hsp, _⟩ := absOkS_parts hok
-  obtain ⟨htn, hrk, hobj, _, hvn, _, _, hexcl⟩ := absOk_parts hok1
+  obtain ⟨htn, hrk, hobj, _, hvn, _, _, hexcl⟩ := absOk2_parts hok1
   simp only [conformsAt, List.any_eq_true, List.mem_range, Bool.and_eq_true] at h
   obtain ⟨rt, hrt, happ, hc⟩ := h
   cases j with
